@@ -747,6 +747,11 @@ func (x *Interp) runCustom(s *GenSpec, subs map[*GenSpec]*rapid.Generator[any], 
 
 func (x *Interp) repeat(fr *frame, st *Stmt) {
 	t := fr.sc.t
+	hasInv := 0
+	if st.HasInv {
+		hasInv = 1
+	}
+	x.ev(Event{K: "rstart", Scope: fr.sc.id, ID: hasInv}) // a call of Repeat begins; ID tells whether it was given an invariant
 	if st.Shared && st.SM == "" {
 		// the actions map is built once and handed to Repeat by every invocation, like a map a user keeps in a
 		// variable outside the property function
